@@ -24,7 +24,7 @@ from ..values import kinds, random_value
 PROP = "C05"
 LEVEL = "exploration"
 RULE = ("complete product position x value-class x dialect (every named string class, int/float/Decimal/bool/None/"
-        "date/time/datetime/UUID/enum/JSON values at every position that accepts the kind, six dialects) plus seeded random "
+        "date/time/datetime/UUID/enum (plain, int-mixin, str-mixin, IntEnum)/JSON values at every position that accepts the kind, six dialects) plus seeded random "
         "values (hostile alphabet, 0-12 atoms, full Unicode range, nested JSON); non-trivial = the value is not a plain "
         "alphanumeric string / small int; distinct = (position, dialect, value)")
 ASSUMPTIONS = [
